@@ -28,6 +28,7 @@ from __future__ import annotations
 import numpy as np
 
 from pv import core
+from pv.gen import c09_axes as AX
 from pv.ref import c09_oracle as O
 
 TYPES = {
@@ -59,11 +60,16 @@ def _theta(rng):
     import astropy.units as u
     r = rng.random()
     t = float(rng.uniform(-3.5, 3.5))
-    if r < 0.5:
+    if r < 0.4:
         return t
-    if r < 0.8:
+    if r < 0.6:
         return np.rad2deg(t) * u.deg
-    return t * u.rad
+    if r < 0.75:
+        return t * u.rad
+    if r < 0.87:
+        return np.rad2deg(t) * 60.0 * u.arcmin          # non-base angular unit
+    from astropy.coordinates import Angle
+    return Angle(np.rad2deg(t), 'deg')
 
 
 def _initial(rng, tname, n):
@@ -233,22 +239,74 @@ def run(case, group):
     tname = names[int(rng.integers(0, len(names)))]
     cls = getattr(pa, tname)
     n = int(rng.integers(12, 30))
-    data = rng.normal(5, 1, (n, n + int(rng.integers(0, 5))))
-    error = np.abs(rng.normal(1, 0.2, data.shape)) if rng.random() < 0.5 else None
+    import astropy.units as u
+    mag = AX.scale(case, 'magnitude_aperture_data')
+    lay = AX.layout(case, 'layout_aperture_data')
+    shp = (n, n + int(rng.integers(0, 5))) if rng.random() < 0.7 else (int(rng.integers(5, 12)), int(rng.integers(40, 70)))
+    data = rng.normal(5, 1, shp) * mag
+    error = np.abs(rng.normal(1, 0.2, data.shape)) * mag if rng.random() < 0.5 else None
     mask = (rng.random(data.shape) < 0.1) if rng.random() < 0.4 else None
+    r = rng.random()
+    if r < 0.1:
+        data = data.astype(np.float32)
+        error = None if error is None else error.astype(np.float32)
+        case.note('axis:dtype_aperture_data:float32')
+    elif r < 0.18:
+        data = np.round(data / mag * 10).astype(np.int32)
+        case.note('axis:dtype_aperture_data:int32')
+    data, error, mask = lay(data), lay(error), lay(mask)
+    if rng.random() < 0.15:
+        un = [u.Jy, u.mJy][int(rng.integers(0, 2))]
+        data = data * un
+        error = None if error is None else error * un
+        case.note('axis:unit_aperture_data:' + str(un))
+    # call forms of the parameters (the record always holds the value the form denotes)
+    sform = ['float', 'float', 'np_float64', 'int', 'np_int'][int(rng.integers(0, 5))]
+    pform = ['array', 'array', 'list', 'tuple', 'int_array'][int(rng.integers(0, 5))]
+    case.note('axis:aperture_scalar_form:' + sform)
+    case.note('axis:aperture_positions_form:' + pform)
+
+    def passed(name, v, record):
+        """(value in the drawn call form, value to record) for one parameter."""
+        if name == 'theta':
+            return copy.deepcopy(v), _theta_q(v)
+        if name == 'positions':
+            a = np.asarray(v, dtype=float)
+            if pform == 'int_array':
+                a = np.round(a)
+                return a.astype(np.int64), a
+            if pform == 'list':
+                return a.tolist(), a
+            if pform == 'tuple':
+                return (tuple(map(tuple, a.tolist())) if a.ndim == 2 else tuple(a.tolist())), a
+            return a.copy(), a
+        v = float(v)
+        if sform in ('int', 'np_int'):
+            vi = float(max(1, round(v)))
+            trial = dict(record, **{name: vi})
+            if name not in PAIRS or trial[PAIRS[name][0]] < trial[PAIRS[name][1]]:
+                return (int(vi) if sform == 'int' else np.int64(vi)), vi
+        if sform == 'np_float64':
+            return np.float64(v), v
+        return v, v
     model0 = _initial(rng, tname, n)
     pnames = list(model0.keys())
 
     # root: half of the time from a caller-owned float64 array (kept by the harness)
+    if rng.random() < 0.08:          # degenerate: far from the origin, entirely off the image
+        model0['positions'] = np.asarray(model0['positions'], dtype=float) + float(rng.choice([1.0e5, -4.0e3]))
+        case.note('axis:degenerate_aperture:entirely_off_image')
     caller_arr = None
+    kw, rec = {}, {}
+    for k in list(model0.keys()):          # outer radii first so that integer forms can be validated
+        rec[k] = float(model0[k]) if k not in ('positions', 'theta') else model0[k]
+    for k in sorted(model0.keys(), key=lambda q: (q.endswith('_in'), q)):
+        kw[k], rec[k] = passed(k, model0[k], rec)
     if rng.random() < 0.5:
-        caller_arr = np.array(model0['positions'], dtype=np.float64)
-        kw = {k: copy.deepcopy(v) for k, v in model0.items()}
+        caller_arr = np.array(rec['positions'], dtype=np.float64)
         kw['positions'] = caller_arr
-        root = cls(**kw)
-    else:
-        root = _make(tname, model0)
-    model0 = dict(model0, theta=_theta_q(model0['theta'])) if 'theta' in model0 else model0
+    root = cls(**kw)
+    model0 = rec
     pool = [_Slot(root, model0, 'root')]
     tgroups = [0]
     log = []
@@ -303,8 +361,9 @@ def run(case, group):
                            {'family': 'aperture', 'type': tname, 'op': 'set_invalid', 'param': name}, got=out.etype)
                 continue
             val = _new_value(rng, model, name, n)
-            setattr(ap, name, copy.deepcopy(val))
-            model[name] = _theta_q(val) if name == 'theta' else val
+            pv_, rv_ = passed(name, val, model)
+            setattr(ap, name, pv_)
+            model[name] = rv_
             slot.last = 'set:' + name
             slot.theta_dirty = False
             if name == 'theta':
